@@ -146,12 +146,26 @@ func runScript(t *testing.T, sc script) (out outcome) {
 			time.Sleep(300 * time.Millisecond)
 		}
 		w.start = time.Now()
-		results := atk.Attack(w.target, w, time.Duration(sc.du), "scripted")
+		// Attack is expected to return at once; should it consult the pacer (or anything else that
+		// blocks) before returning, the call must not wedge the driver: it runs on its own goroutine
+		// and the channel is picked up as soon as the call has returned
+		var results <-chan *vegeta.Result
+		got := make(chan (<-chan *vegeta.Result), 1)
+		go func() { got <- atk.Attack(w.target, w, time.Duration(sc.du), "scripted") }()
+		fetch := func() {
+			if results == nil {
+				select {
+				case results = <-got:
+				default:
+				}
+			}
+		}
 		released := map[int64]bool{}
 		closedSeen := false
 		recording := true
 		snap := func(st *step) {
 			synctest.Wait()
+			fetch()
 			if !recording {
 				return
 			}
